@@ -15,6 +15,8 @@ hash-ordered containers or ambient state could leak into the generator's output:
   templates (regex over gapic/templates/** and gapic/ads-templates/**)
     t-sort      `| sort`, `| sort(...)`, `| dictsort`, `| unique`, `filter sort_lines` / `| sort_lines`
     t-setloop   `{% for … in EXPR %}` / `{% if … in EXPR %}` / `{{ EXPR }}` where EXPR mentions a set-valued attribute
+                (tagged `<template in sort_lines>` when enclosed by a `{% filter sort_lines %}` block)
+    t-impure    Jinja `|random`, `|shuffle`, `lipsum()`, `now()`
 
 A site is identified by  <file>::<enclosing def>::<kind>::<normalised source text>[#k]  (no line numbers: moving
 code does not change the inventory, adding/removing/rewriting a site does).  The pinned file
@@ -50,7 +52,8 @@ ITER_METHODS = {"join", "update", "extend", "from_iterable"}
 IMPURE_NAMES = {"time", "datetime", "random", "uuid", "secrets", "socket", "platform", "getpass", "tempfile", "glob"}
 IMPURE_ATTRS = {"environ", "getenv", "getcwd", "abspath", "realpath", "listdir", "walk", "scandir", "getpid",
                 "expanduser", "now", "today", "utcnow", "urandom", "uuid4", "uuid1", "gethostname", "iterdir",
-                "rglob", "cwd", "home"}
+                "rglob", "cwd", "home", "relpath", "getcwdb", "getuid", "getlogin", "perf_counter",
+                "monotonic", "time_ns", "curdir"}
 IMPURE_CALLS = {"id", "hash", "open", "input"}
 
 
@@ -330,6 +333,9 @@ def scan_templates(root, set_attrs):
                         hit = True
                         break
                     if hit:
+                        continue
+                    if re.search(r"\|\s*(random|shuffle)\b|\blipsum\s*\(|\bnow\s*\(", tag):
+                        sites.append((rel, "<template>", "t-impure", tag[:140]))
                         continue
                     words = set(re.findall(r"\.([A-Za-z_]\w*)", tag))
                     if words & set_attrs:
